@@ -58,6 +58,50 @@ Theorem rollback_failure_names_backup :
 Proof. intros pl freshd Hf F G names w cF0 cS0 v r w' HF HG HFG Hnd Hst. exact (commit_batch_names_backup pl freshd Hf F G names w cF0 cS0 HF HG HFG Hnd Hst v r w'). Qed.
 Print Assumptions rollback_failure_names_backup.
 
+(* The precondition "targets pairwise distinct" (NoDup names above; staged name = target name = <sanitised
+   PostScript name>.gob, so the list of names IS the list of (staged, target) pairs) is established by the staging
+   phase: installTrueTypeCollectionMembers reserves every member's SANITISED name before staging it.  Whatever
+   fails, a staging phase that returns nil yields pairwise distinct names, exactly the members' sanitised names in
+   order, and this happens only if the pure staging decision accepts (no member unparsable, no sanitised name twice). *)
+Theorem staging_establishes_distinct_targets :
+  forall pl freshn kp (G : list positive) ms w names w',
+  stage_members pl freshn kp G ms [] w = (None, names, w') ->
+  NoDup names /\ names = flat_map member_target ms /\ stage_decide ms [] 0 = Accept.
+Proof.
+  intros pl freshn kp G ms w names w' H.
+  destruct (stage_members_distinct pl freshn kp G ms [] w names w' (NoDup_nil_2) H) as (H1 & H2 & H3).
+  split; [exact H1|]. split; [exact H2|exact (H3 0)].
+Qed.
+Print Assumptions staging_establishes_distinct_targets.
+
+(* ... and a collection the decision rejects never reaches the commit. *)
+Theorem rejected_collection_is_not_committed :
+  forall pl freshn kp (G : list positive) ms w,
+  stage_decide ms [] 0 <> Accept -> fst (fst (stage_members pl freshn kp G ms [] w)) <> None.
+Proof. exact stage_reject_is_error. Qed.
+Print Assumptions rejected_collection_is_not_committed.
+
+(* The precondition is necessary: WITHOUT any injected failure, committing the same target twice over a
+   pre-existing file destroys it - the second round moves the freshly committed file over the original in the
+   backup directory, its commit rename finds nothing to move, and the rollback deletes the target and cannot
+   restore the original; the emptied backup directory is left behind (named by the error). *)
+Theorem duplicate_targets_destroy_original_refuted :
+  exists names t, ~ NoDup names /\
+    let r := commit_batch nofault fresh_child VColl [1%positive] [1%positive; 2%positive] names (w_init t) in
+    lookup_file t [1%positive] 16%positive = Some (File [160%N] 420%N) /\
+    r_pub (fst r) = false /\ r_err (fst r) <> None /\
+    lookup_file (wt (snd r)) [1%positive] 16%positive = None /\
+    wt (snd r) !! ([1%positive] ++ [fresh_child t [1%positive]]) <> None.
+Proof.
+  exists [16%positive; 16%positive],
+         (tree_of_list [([1%positive], [(16%positive, File [160%N] 420%N)]);
+                        ([1%positive; 2%positive], [(16%positive, File [192%N] 420%N)])]).
+  split.
+  - intros H. apply NoDup_cons in H. destruct H as (H & _). apply H. left.
+  - vm_compute. repeat split; congruence.
+Qed.
+Print Assumptions duplicate_targets_destroy_original_refuted.
+
 (* non-vacuity: the hypotheses are satisfiable (the extracted name supply is fresh, single-fault plans are
    amo) and both outcomes occur on a two-name batch whose first name pre-exists *)
 Example C06_nonvacuous :
